@@ -48,6 +48,7 @@ type HarnessSpec struct {
 	// instead of making the check inconclusive: used by the fixture harness, where a path is one concrete
 	// fixture and an oversized fixture says nothing about the property
 	ToleratedInconclusive []string            `json:"tolerated_inconclusive,omitempty"`
+	MaxWallS        int                       `json:"max_wall_s,omitempty"` // wall-clock cap per instance; default 1500 s quick, 6 h thorough
 }
 
 var toleratedNotes = map[string]int{}
@@ -227,6 +228,13 @@ func cmdCheck(args []string) {
 				}
 				if cfg.SolverTimeoutMs == 0 {
 					cfg.SolverTimeoutMs = 60000
+				}
+			}
+			cfg.MaxWallS = h.MaxWallS
+			if cfg.MaxWallS == 0 {
+				cfg.MaxWallS = 1500
+				if *tier == "thorough" {
+					cfg.MaxWallS = 6 * 3600
 				}
 			}
 			rep, err := eng.Run(cfg)
